@@ -80,7 +80,7 @@ func TestVerif(t *testing.T) {
 			ops := append(w[n], rh.Op{Code: rh.OpDLookupAll}, rh.Op{Code: rh.OpFLookupAll}, rh.Op{Code: rh.OpALookupAll})
 			add(rh.RunFixed(t, "fixed:"+n, "keyed", rh.Pools{}, ops, mon, 2))
 		}
-		n := c.N(24, 600)
+		n := c.N(24, 300)
 		sm := rh.NewStrMaterial(c.Rand.Fork())
 		for i := 0; i < n; i++ {
 			g := rh.NewGen(c.Rand.Fork(), "keyed", sm)
@@ -91,5 +91,11 @@ func TestVerif(t *testing.T) {
 			add(rh.RunGenerated(t, fmt.Sprintf("gen-%d", i), g, mon, nm, 2))
 		}
 	}
-	c.WriteCasesV("cases.v", rh.CasesFile(hs))
+	if c.Thorough() && c.Replay == "" {
+		for _, f := range rh.Stress(c.Rand.Fork(), 8, 3000) {
+			c.Fail(f.Sig, f.Detail, "concurrent stress phase (thorough tier)")
+		}
+		c.Count("stress-phase")
+	}
+	rh.WriteCases(c, hs)
 }
